@@ -197,9 +197,34 @@ def check(src, rep):
     res = A.apply(fn, [body_of(items)])
     n_store = 0
     bad = 0
+    if res[0] == "branch":
+        # conditions on the text itself (empty / non-empty, a prefix) are taken both ways: the text of an identification element is arbitrary
+        from sa.parsedworlds import run_valuations as _rv
+        outs_, trunc_ = _rv(A, fn, [body_of(items)], limit=8, with_terms=True)
+        def poss_(t_, v_):
+            """can the condition t_ have the truth value v_?  True / False / None (not known)"""
+            if _text_cond_feasible(t_) or (isinstance(t_, Sym) and t_.pytype == "str"):
+                return True
+            if isinstance(t_, Sym) and t_.pytype == "datetime":
+                return v_ is True  # a datetime is always true
+            return None
+        known_ = all(poss_(t_, v_) is not None for tk_, _, tt_ in outs_ for t_, v_ in zip(tt_, tk_))
+        outs_ = [(tk_, r_, tt_) for tk_, r_, tt_ in outs_ if all(poss_(t_, v_) for t_, v_ in zip(tt_, tk_))]
+        if not trunc_ and known_ and outs_ and all(r_[0] in ("value", "raise") for _, r_, _ in outs_):
+            worst = next((r_ for _, r_, _ in outs_ if r_[0] == "raise"), None) or next((r_ for _, r_, _ in outs_ if r_[0] == "value" and isinstance(r_[1], dict) and r_[1] != want), None)
+            res = worst or outs_[0][1]
+            if worst is not None and worst[0] == "raise":
+                tk_ = next(tk for tk, r_, _ in outs_ if r_ is worst)
+                bad += 1
+                rep.violation("R5", f"aidon.{fn.name}", "text-not-verbatim", f"for some text of an identification element the normaliser raises {worst[1]} instead of storing the text "
+                              "(a condition on the text itself - e.g. its truth value, false for the empty string - decides how the element is treated)", file, fn.node.lineno,
+                              witness=f"condition outcomes {list(tk_)} on {[str(t_)[:40] for t_ in next(tt for _, r_, tt in outs_ if r_ is worst)]}")
+                res = ("handled", None)
     if res[0] == "undecided":
         rep.undecide(f"R3 aidon.{fn.name} is outside the interpreted subset: {res[1]}")
         bad += 1
+    elif res[0] == "handled":
+        pass
     elif res[0] == "branch":
         rep.undecide(f"R3 aidon.{fn.name} branches on a condition the element classes do not determine: {res[1]!r}")
         bad += 1
@@ -249,6 +274,11 @@ def check(src, rep):
                     rep.undecide(f"R5 aidon.{fn.name} on a text element with C.D.E {cdr_}: {r[1]!r}")
                     bad += 1
                     break
+                if r[0] == "value" and isinstance(r[1], dict) and r[1].get(key) == TXT and set(r[1]) - {key, MAN} and not taken:
+                    rep.violation("R4", f"aidon.{fn.name}", "history-dependent", "the dictionary of a list depends on lists decoded earlier (module-level state): a list with a single text element "
+                                  "comes back with fields of earlier lists", file, fn.node.lineno, witness=f"single element {code(cdr_)} = text gives keys {sorted(r[1])}"[:240])
+                    bad += 1
+                    break
                 if (r[0] == "raise" or not isinstance(r[1], dict) or r[1].get(key) != TXT):
                     if taken and not all(_text_cond_feasible(t) for t in terms_):
                         rep.undecide(f"R5 aidon.{fn.name} treats the text element {key!r} according to a condition whose feasibility is not decided here")
@@ -274,6 +304,18 @@ def check(src, rep):
             bad += 1
             rep.violation("R4", f"aidon.{fn.name}", "history-dependent", "the dictionary of a list depends on lists decoded earlier (module-level state): a second list of the same length with other OBIS codes "
                           "is not keyed by its own codes", file, fn.node.lineno, witness=f"second call gives {res2[1] if res2[0] == 'value' else res2!r}"[:200])
+    # ... and nothing of an earlier list is carried into a later, shorter one: a list with a text under every name of the table, then a list with one register only
+    if not bad and res[0] == "value":
+        resA = A.apply(fn, [body_of([AObj("Container", {"obis": code(cdr_), "content": TXT}) for cdr_ in sorted(name_map) if cdr_ != "1.0.0"])])
+        resB = A.apply(fn, [body_of([AObj("Container", {"obis": "1.1.250.251.252.255", "content": cases[0][2]})])])
+        wantB = {MAN: "Aidon", "250.251.252": Res("float", V)}
+        if resA[0] in ("undecided", "branch") or resB[0] in ("undecided", "branch"):
+            rep.undecide(f"R4 a list of texts followed by a one-register list is outside the interpreted subset: {(resA if resA[0] != 'value' else resB)[1]!r}"[:300])
+            bad += 1
+        elif resA[0] == "value" and (resB[0] != "value" or resB[1] != wantB):
+            bad += 1
+            rep.violation("R4", f"aidon.{fn.name}", "history-dependent", "the dictionary of a list depends on lists decoded earlier (module-level state): fields of an earlier list appear in the "
+                          "dictionary of a later list that does not carry them", file, fn.node.lineno, witness=f"after a list with a text under every known name, the one-register list gives {resB[1] if resB[0] == 'value' else resB!r}"[:240])
     if not bad and n_store:
         rep.ok("R3", "numeric elements", "stored value = unscaled integer when equal to the scaled Decimal, else float(scaled Decimal) (symbolic register values)")
         rep.ok("R4", f"{n_store} element classes", "key = obis_name_map[C.D.E] when known, else C.D.E of the element's OBIS code")
